@@ -30,6 +30,10 @@ ReplaceExpr(bs, n, e) == [b \in 1..Len(bs) |-> [bs[b] EXCEPT !.entries = [j \in 
 ReplaceVarIn(bs, n, old, new) == [b \in 1..Len(bs) |-> [bs[b] EXCEPT !.entries =
       [j \in 1..Len(@) |-> IF @[j].name = n THEN [@[j] EXCEPT !.e = Subst(@.e, (old :> Var(new)))] ELSE @[j]]]]
 
+\* the entry of name n as it stands in the text (with its annotations): an IDENTICAL repetition repeats all of it
+EntryIn(bs, n) == LET b == CHOOSE b \in 1..Len(bs) : \E j \in 1..Len(bs[b].entries) : bs[b].entries[j].name = n
+                      j == CHOOSE j \in 1..Len(bs[b].entries) : bs[b].entries[j].name = n
+                  IN bs[b].entries[j]
 OtherComp(c) == IF c = "A" THEN "B" ELSE IF c = "B" THEN "A" ELSE "Z"
 AssignNamesOf(m) == m.aN
 FaultKinds == {"dup-identical", "dup-diff-samedeps", "dup-regrouped", "dup-diff-deps", "dup-other-comp-diff", "dup-other-comp-identical",
@@ -51,20 +55,20 @@ Sites(k) ==
 Apply(bs, k, n) ==
   LET c == IF n \in DOMAIN mi.cp THEN mi.cp[n] ELSE "" 
       e == IF n \in DOMAIN mi.ex THEN mi.ex[n] ELSE One IN
-  CASE k = "dup-identical"       -> AddEntry(bs, "expressions", c, Entry(n, e))
+  CASE k = "dup-identical"       -> AddEntry(bs, "expressions", c, EntryIn(bs, n))
     [] k = "dup-diff-samedeps"   -> AddEntry(bs, "expressions", c, Entry(n, Bn("add", e, N("1"))))
     \* the same token sequence up to parentheses, another tree and another value:  e - 1 - 2  versus  e - (1 - 2)
     [] k = "dup-regrouped"       -> AddEntry(ReplaceExpr(bs, n, Bn("sub", Bn("sub", e, N("1")), N("2"))), "expressions", c,
                                              Entry(n, Bn("sub", e, Bn("sub", N("1"), N("2")))))
     [] k = "dup-diff-deps"       -> AddEntry(bs, "expressions", c, Entry(n, Bn("add", e, Var("t"))))
     [] k = "dup-other-comp-diff" -> AddEntry(bs, "expressions", OtherComp(c), Entry(n, Bn("mul", e, N("2"))))
-    [] k = "dup-other-comp-identical" -> AddEntry(bs, "expressions", OtherComp(c), Entry(n, e))
+    [] k = "dup-other-comp-identical" -> AddEntry(bs, "expressions", OtherComp(c), EntryIn(bs, n))
     [] k = "clash-state-param-equal"   -> AddEntry(bs, "parameters", c, Entry(n, e))
     [] k = "clash-state-param-unequal" -> AddEntry(bs, "parameters", c, Entry(n, N("8")))
     [] k = "clash-param-inter"   -> AddEntry(bs, "expressions", c, Entry(n, N("8")))
     [] k = "clash-state-inter"   -> AddEntry(bs, "expressions", c, Entry(n, e))
     [] k = "dup-state-diff"      -> AddEntry(bs, "states", c, Entry(n, N("8")))
-    [] k = "dup-state-identical" -> AddEntry(bs, "states", c, Entry(n, e))
+    [] k = "dup-state-identical" -> AddEntry(bs, "states", c, EntryIn(bs, n))
     [] k = "dup-param-diff"      -> AddEntry(bs, "parameters", c, Entry(n, N("8")))
     [] k = "missing-derivative"  -> NonEmpty(RemoveName(bs, n))
     [] k = "orphan-derivative"   -> AddEntry(bs, "expressions", IF layout = "split" THEN "A" ELSE "", Entry("dk_dt", One))
